@@ -295,10 +295,17 @@ class C19(Prop):
             elif k == 4:
                 parts.append(rng.choice([".safeMode = '0'", ".htmlReplacement = 'x'"]))
             elif k == 5:
-                parts.append(rng.choice([".+macros -spans\n" + plain(rng), ".cls #i%d\n%s" % (rng.randint(1, 9999), plain(rng)),
-                                         "{--} = ''", "{m1?} = 'kept'", ".-specials -container\n..\n%s\n.." % plain(rng)]))
+                sp = lambda: rng.choice([' ', ' ', '  ', '   '])    # noqa: E731  (options are separated by runs of blanks)
+                parts.append(rng.choice([".+macros%s-spans%s\n" % (sp(), rng.choice(['', ' ', '  '])) + plain(rng),
+                                         ".cls #i%d\n%s" % (rng.randint(1, 9999), plain(rng)),
+                                         "{--} = ''", "{m1?} = 'kept'", ".-specials%s-container\n..\n%s\n.." % (sp(), plain(rng)),
+                                         ".cls%s+macros%s-spans%s+specials\n%s" % (sp(), sp(), sp(), plain(rng)),
+                                         ".%s-macros%s+spans\n%s" % (rng.choice(['', ' ']), sp(), plain(rng))]))
             elif k == 6:
-                parts.append(rng.choice(["|code| = '<pre>|</pre> +macros'", "/teh/ = 'the'", "~ = '<u>|</u>'"]))
+                sp = lambda: rng.choice([' ', ' ', '  ', '   '])    # noqa: E731
+                parts.append(rng.choice(["|code| = '<pre>|</pre>%s+macros'" % sp(), "/teh/ = 'the'", "~ = '<u>|</u>'",
+                                         "|paragraph| = '<p>|</p> +macros%s+spans%s'" % (sp(), rng.choice(['', ' '])),
+                                         "|division| = '+container%s-macros'" % sp()]))
             elif k == 7:
                 parts.append('- item {m1}\n- item')
             else:
@@ -413,6 +420,19 @@ class C12(Prop):
                                      '""\n- i1\n- i2\n""', '<div class="a">\n<p class="b" style="c:d">x</p>\n</div>'])
                 yield {'merge': True, 'with': "{mm} = 'MM'\n\n" + line + '\n' + target + '\n\nnext *para*', 'safeMode': mode}
                 continue
+            if rng.random() < 0.2:
+                # block options: each alters the processing of the next block only; `-specials` is refused in a non-zero safe
+                # mode and the options after it on the line still apply
+                opts = rng.sample(['-macros', '-spans', '-specials', '+skip', '+macros', '+spans'], rng.randint(1, 4))
+                if '+macros' in opts and '-macros' in opts:
+                    opts.remove('+macros')
+                if '+spans' in opts and '-spans' in opts:
+                    opts.remove('+spans')
+                sep = rng.choice([' ', ' ', '  '])
+                line = '.' + rng.choice(['', 'k1 ']) + sep.join(opts)
+                yield {'options': opts, 'with': "{mm} = 'MM'\n\n%s\nT {mm} *b* &c\n\nafter {mm} *x*" % line, 'safeMode': mode,
+                       'cls': 'k1 ' in line}
+                continue
             classes, pid, css, attrs = [], None, [], []
             skip = False
             lines = []
@@ -481,6 +501,33 @@ class C12(Prop):
         a, _, ok1 = run_session(ctx, [{'src': case['with'], 'safeMode': mode, 'reset': True, 'callback': True}], res, case)
         if case.get('merge'):
             res.count('merge_correspondence_only')
+            return
+        if case.get('options'):
+            if a[0][0] != 'ok':
+                res.count('not_ok')
+                return
+            res.oracle_checks += 1
+            O = case['options']
+            applied = not (mode & 4)
+            defined = mode == 0 or bool(mode & 8)
+            mm = 'MM' if defined else '{mm}'
+            text = 'T %s *b* &c' % (mm if not ('-macros' in O and applied) else '{mm}')
+            if not ('-spans' in O and applied):
+                text = text.replace('*b*', '<em>b</em>').replace('&c', '&amp;c')
+            elif not ('-specials' in O and applied and mode == 0):
+                text = text.replace('&c', '&amp;c')
+            cls = ' class="k1"' if case['cls'] and applied else ''
+            first = '' if ('+skip' in O and applied) else '<p%s>%s</p>' % (cls, text)
+            # a skipped block leaves the class pending for the next block
+            cls2 = cls if ('+skip' in O and applied) else ''
+            second = '<p%s>after %s <em>x</em></p>' % (cls2, mm)
+            expected = (first + '\n' + second) if first else second
+            if nonl(a[0][1]) != nonl(expected):
+                res.violation('block options did not alter exactly the processing of the next block', case,
+                              {'output': a[0][1], 'expected': expected})
+                return
+            res.count('options_case')
+            res.nontrivial(case['with'])
             return
         without = case['without']
         if case['skip_line'] and not case['skip']:
@@ -580,10 +627,18 @@ class C11(Prop):
                         table[name] = value_expanded
                     kinds.add('existential')
                 elif form < 0.35 and value != '':
-                    v2 = plain(rng)
+                    # multi-line values; some end with a line break (the closing quote alone on its line)
+                    v2 = rng.choice([plain(rng), plain(rng), '', plain(rng) + '\n'])
                     d = "{%s} = '%s\n%s'" % (name, value, v2)
                     table[name] = value_expanded + '\n' + v2
                     kinds.add('multiline')
+                elif form < 0.42 and '$' not in value and value != '':
+                    # characters that str.splitlines() treats as line boundaries are ordinary characters of a value
+                    tail = rng.choice(gen.LINESEPS) + plain(rng)
+                    value, value_expanded = value + tail, value_expanded + tail
+                    d = "{%s} = '%s'" % (name, value)
+                    table[name] = value_expanded
+                    kinds.add('linesep')
                 else:
                     d = "{%s} = '%s'" % (name, value)
                     table[name] = value_expanded
@@ -598,7 +653,7 @@ class C11(Prop):
                 name = rng.choice(names + ['undef'])
                 args = [rng.choice(PLAIN) for _ in range(rng.randint(0, 4))]
                 k = rng.random()
-                ctxk = rng.choice(['para-mid', 'para-start', 'header', 'list'])
+                ctxk = rng.choice(['para-mid', 'para-start', 'header', 'list', 'line-alone'])
                 if name not in table:
                     inv = '{%s}' % name if k < 0.5 else '{%s|%s}' % (name, '|'.join(args))
                     val = inv
@@ -633,7 +688,12 @@ class C11(Prop):
                     lines_a.append('%s\n%s %s %s\n%s' % (w0, w1, inv, w2, w3))
                     lines_b.append('%s\n%s\n%s' % (w0, '%s  %s' % (w1, w2), w3) if val is not None else '%s\n%s' % (w0, w3))
                     continue
-                if ctxk == 'para-mid':
+                if ctxk == 'line-alone' and val is not None and val.strip(' \t\n') != '' and val[:1] not in ' \t\n' and inv[0] != '\\':
+                    # the invocation is a line of its own, the next line follows directly: exactly the lines of the value stand
+                    # in its place
+                    kinds.add('line-alone')
+                    la, lb = '%s\n%s' % (inv, w2), '%s\n%s' % (val, w2)
+                elif ctxk in ('para-mid', 'line-alone'):
                     la, lb = '%s %s %s' % (w1, inv, w2), (None if val is None else '%s %s %s' % (w1, val, w2))
                 elif ctxk == 'para-start':
                     la, lb = '%s %s' % (inv, w2), (None if val is None else '%s %s' % (val, w2))
